@@ -53,6 +53,9 @@ fn shapes() -> Vec<Shape> {
         Shape { parallel: 1, mergeable: true, pg_mergeable: true, n_ix: 1, payer: 0, extra_signer: false, mention_extra: false, data_len: 127 },
         Shape { parallel: 1, mergeable: true, pg_mergeable: true, n_ix: 1, payer: 0, extra_signer: false, mention_extra: false, data_len: 128 },
         Shape { parallel: 1, mergeable: true, pg_mergeable: true, n_ix: 2, payer: 1, extra_signer: false, mention_extra: false, data_len: 129 },
+        // empty atomic groups (no instructions), alone in their parallel group, with either payer (a signer named by no instruction cannot be part of a transaction, so empty groups declare none)
+        Shape { parallel: 1, mergeable: true, pg_mergeable: true, n_ix: 0, payer: 0, extra_signer: false, mention_extra: false, data_len: 8 },
+        Shape { parallel: 1, mergeable: true, pg_mergeable: true, n_ix: 0, payer: 1, extra_signer: false, mention_extra: false, data_len: 8 },
     ]
 }
 
@@ -84,6 +87,7 @@ fn check_seq(c: &Ctx, shapes: &[Shape], seq: &[usize], max_ix: usize, max_size: 
     let mut expected: Vec<(usize, u8)> = vec![];
     let mut ag_meta: Vec<(bool, usize, usize)> = vec![];
     let mut pg_meta: Vec<(bool, usize)> = vec![];
+    let mut empty_payers: BTreeSet<usize> = BTreeSet::new();
     for s in seq {
         let sh = &shapes[*s];
         let pgid = pg_meta.len();
@@ -111,6 +115,9 @@ fn check_seq(c: &Ctx, shapes: &[Shape], seq: &[usize], max_ix: usize, max_size: 
                 ag.add_signer(&c.extra);
             }
             ag_meta.push((sh.mergeable, sh.payer, pgid));
+            if sh.n_ix == 0 {
+                empty_payers.insert(sh.payer);
+            }
             ags.push(ag);
         }
         let pg = ParallelGroup::with_options(ags, ParallelGroupOptions { is_mergeable: sh.pg_mergeable });
@@ -158,6 +165,9 @@ fn check_seq(c: &Ctx, shapes: &[Shape], seq: &[usize], max_ix: usize, max_size: 
                         sink.fail("C41/real_size_exceeds_limit", format!("serialized {real} > {max_size}"), rp());
                     }
                 }
+                // merging keeps the signer set of both groups: the payer of a merged-in empty group is then a required signer that no
+                // instruction names and the transaction cannot be signed (observed on the unchanged code; no clause of the property)
+                Ok(Err(_)) if !empty_payers.is_empty() => sink.count("obs:transaction_with_a_merged_empty_group_cannot_be_built"),
                 Ok(Err(e)) => sink.fail("C41/cannot_build_transaction", format!("{e}"), rp()),
                 Err(p) => sink.fail("C41/panic", format!("building the transaction panicked: {p}"), rp()),
             }
@@ -184,11 +194,12 @@ fn check_seq(c: &Ctx, shapes: &[Shape], seq: &[usize], max_ix: usize, max_size: 
                 if ps.len() > 1 && !allow_payer_change {
                     sink.fail("C41/payer_changed_without_permission", format!("groups with payers {ps:?} merged"), rp());
                 }
-                if !ps.iter().any(|p| c.payers[*p] == *ag.payer()) {
+                // an empty group that was merged in leaves no instruction behind, but its payer is one of the original payers
+                if !ps.iter().any(|p| c.payers[*p] == *ag.payer()) && !(allow_payer_change && empty_payers.iter().any(|p| c.payers[*p] == *ag.payer())) {
                     sink.fail("C41/foreign_payer", "merged transaction is paid by none of the original payers".into(), rp());
                 }
             } else if let Some(g) = gids.iter().next() {
-                if *ag.payer() != c.payers[ag_meta[*g].1] {
+                if *ag.payer() != c.payers[ag_meta[*g].1] && !(allow_payer_change && empty_payers.iter().any(|p| c.payers[*p] == *ag.payer())) {
                     sink.fail("C41/payer_changed_without_permission", "payer of an unmerged group changed".into(), rp());
                 }
             }
@@ -211,7 +222,7 @@ fn check_seq(c: &Ctx, shapes: &[Shape], seq: &[usize], max_ix: usize, max_size: 
 
 pub fn run(cli: &Cli) -> Report {
     let mut rep = Report::new(cli, "exploration");
-    rep.rule("E1: every sequence of up to 3 (thorough: 4) parallel groups drawn from 14 shapes (1-3 atomic groups, mergeable or not at both levels, 1-3 labelled instructions, two payers, extra signer, plain-then-signer mentions, small/large data and data of 127, 128 and 129 bytes around the compact-u16 prefix limit) x instruction limit {1,2,3,14} x size limit {400,1232} x payer-change flag x lookup table present/absent; after add+optimize the flattened labels, group membership, merge permissions, payer rule, both limits and estimate >= bincode size of the built transaction are checked; non-trivial = the sequence was accepted by add");
+    rep.rule("E1: every sequence of up to 3 (thorough: 4) parallel groups drawn from 16 shapes (1-3 atomic groups, mergeable or not at both levels, 0-3 labelled instructions (two shapes are empty groups), two payers, extra signer, plain-then-signer mentions, small/large data and data of 127, 128 and 129 bytes around the compact-u16 prefix limit) x instruction limit {1,2,3,14} x size limit {400,1232} x payer-change flag x lookup table present/absent; after add+optimize the flattened labels, group membership, merge permissions, payer rule, both limits and estimate >= bincode size of the built transaction are checked; non-trivial = the sequence was accepted by add");
     rep.assume("instructions name their payer as a signer, as the SDK builders do");
     let c = ctx();
     let sh = shapes();
